@@ -155,7 +155,33 @@ def run(run):
                 run.check(ok, f'C07.preload-value[{op}]', case, detail, 'ideal')
             with env.quiet():
                 r.close()
+    warm_diagonals(run, cases)
     header_histories(run, [c for c in cases if any(k in c.label for k in ('small_8bit.', 'small-irregular', 'small-2d', 'padding_6x7')) or c.label.startswith('numpy(9, 10, 70)')])
+
+
+def warm_diagonals(run, cases):
+    """Not part of the statement (no clause constrains I/O ACROSS calls), so never a violation: whether the chunk LRU still holds a whole
+    diagonal, i.e. whether repeating a diagonal read on the same reader fetches anything.  Reported as model drift."""
+    for fc in cases:
+        F = fc.F
+        if F['dim'] != 3 or F['mask'] or F['b'][0] != 4 or F['b'][1] != 4:
+            continue
+        ni, nx = F['n'][0], F['n'][1]
+        r, h = open_reader(fc, fc.ref.bytes, 'local')
+        h.take()
+        try:
+            for ad in sorted({min(ni, nx) - 1, min(ni, nx), max(ni, nx) - 1}):
+                with env.quiet():
+                    r.read_anticorrelated_diagonal(ad)
+                    h.take()
+                    r.read_anticorrelated_diagonal(ad)
+                again = [x for x in h.take() if x[0] >= F['hblk'] * BLK]
+                if again:
+                    run.drift(f'{fc.label}: repeating anticorrelated diagonal {ad} re-fetched {len(again)} ranges (chunk LRU smaller than a diagonal)')
+                    break
+        finally:
+            with env.quiet():
+                r.close()
 
 
 def header_histories(run, cases, only=None):
